@@ -3,7 +3,7 @@ import re
 def t(desc, text):
     try:
         g = Grammar(desc, include_source=True)
-        ids = sorted(set(re.findall(r'_parse_function_\d+', g._source_code)))
+        ids = sorted(set(re.findall(r'_helper_function_\d+', g._source_code)))
         print('helpers', ids)
         print(repr(desc)[:80], '->', repr(g.parse(text)))
     except Exception as e:
@@ -11,7 +11,7 @@ def t(desc, text):
 d = 'start = T(["a", x]) \nT(p) = p\nx = "b"\n'
 t(d, 'ab')
 g = Grammar(d, include_source=True)
-ids = sorted(set(re.findall(r'_parse_(function_\d+)', g._source_code)))
+ids = sorted(set(re.findall(r'_helper_(function_\d+)', g._source_code)))
 print(ids)
 d2 = d.replace('x = "b"', ids[0] + ' = "b"').replace('x]', ids[0] + ']')
 print(d2)
